@@ -162,7 +162,7 @@ func c12(c *core.Ctx, r *core.Report) {
 	sort.Slice(instList, func(i, j int) bool { return instList[i].String() < instList[j].String() })
 	maxLen := 2
 	if c.Tier == "thorough" {
-		maxLen = 3
+		maxLen = 4
 	}
 	totalRuns := 0
 	for _, inst := range instList {
